@@ -2588,6 +2588,15 @@ impl<'a> Parser<'a> {
                 break;
             }
 
+            // `-x ** 2` and `await x ** 2` are ambiguous and not part of the grammar
+            if op == BinaryOp::Exp && matches!(left, Expression::Unary(_) | Expression::Await(_)) {
+                return Err(JsError::syntax_error(
+                    "Unary operator used immediately before exponentiation expression; use parentheses",
+                    self.current.span.line,
+                    self.current.span.column,
+                ));
+            }
+
             // Save the operator token kind before advancing (needed for logical op detection)
             let op_token_kind = self.current.kind.clone();
             self.advance();
